@@ -116,7 +116,7 @@ def mutations(rng, data, batched, is_json, n):
 def run(job):
     rng = random.Random(job["seed"] * 1000 + job["part"])
     part, parts = job["part"], job["parts"]
-    n = 12 if job["tier"] == "quick" else 150
+    n = 12 if job["tier"] == "quick" else 400
     rec = Recorder()
     rec.install()
     out = []
